@@ -87,6 +87,10 @@ type op struct {
 	Round  int    `json:"round"`   // -1 = probe
 	Target int    `json:"target"`  // member the request was handed to (allocator side)
 	WallMs int64  `json:"wall_ms"` // wall clock at return (diagnostics in witnesses only; no oracle reads it)
+	// placement when the request began: the PD leader member and the dcs whose local allocator
+	// that member led (used to name the mechanism of a violation, never to decide one)
+	PDLeader int      `json:"pd_leader"`
+	PDLeads  []string `json:"pd_leader_leads,omitempty"`
 }
 
 type suffixEv struct {
@@ -179,6 +183,25 @@ func (c *cluster) serving(dc string) (int, *srv.Member) {
 	return -1, nil
 }
 
+// pdPlacement returns the PD leader member and the dcs whose local allocator it leads right now.
+func (c *cluster) pdPlacement() (int, []string) {
+	gi, gm := c.serving(globalDC)
+	if gm == nil {
+		return -1, nil
+	}
+	var leads []string
+	for _, dc := range c.dcs(true) {
+		a, err := gm.Srv.GetTSOAllocatorManager().GetAllocator(dc)
+		if err != nil {
+			continue
+		}
+		if la, ok := a.(*tso.LocalTSOAllocator); ok && la.IsAllocatorLeader() {
+			leads = append(leads, dc)
+		}
+	}
+	return gi, leads
+}
+
 func (c *cluster) placement() string {
 	var parts []string
 	for _, dc := range append([]string{globalDC}, c.dcs(true)...) {
@@ -239,11 +262,11 @@ func startCluster(r *ev.Run, t topo) *cluster {
 		break
 	}
 	if lastErr != nil {
-		r.Inconclusive("cluster start (%s): %v", t.Name, lastErr)
+		skipped(r, "topology_skipped_setup_timeout", t.Name, "cluster start: %v", lastErr)
 		return nil
 	}
 	if srv.WaitLeader(c.members(), 120*time.Second) == nil {
-		r.Inconclusive("no PD leader within 120 s (%s)", t.Name)
+		skipped(r, "topology_skipped_setup_timeout", t.Name, "no PD leader within 120 s")
 		c.close()
 		return nil
 	}
@@ -256,7 +279,7 @@ func (c *cluster) startLate() bool {
 		if c.t.Late != nil && c.t.Late[i] {
 			m, err := srv.Start(c.cfgs[i])
 			if err != nil {
-				c.r.Inconclusive("late member start (%s): %v", c.t.Name, err)
+				skipped(c.r, "topology_cut_short", c.t.Name, "late member start: %v", err)
 				return false
 			}
 			c.mu.Lock()
@@ -423,6 +446,7 @@ func (q *requester) do(dc string, count uint32, mode string, round int, force in
 	}
 	o := op{Mode: mode, Round: round, Target: ti}
 	o.Client, o.Member, o.DC, o.Count = q.id, ti, dc, count
+	o.PDLeader, o.PDLeads = c.pdPlacement()
 	if m == nil {
 		o.Call = hist.Tick()
 		o.Err = "no member serves " + dc
@@ -665,7 +689,7 @@ func (c *cluster) beforeJoin(rng *rand.Rand, dcs []string) bool {
 				c.r.Count("placement_before_join_not_reached", 1)
 			}
 			if !c.waitServing(dcs, 90*time.Second) {
-				c.r.Inconclusive("%s: allocators did not serve again after the move before the join (placement %s)", t.Name, c.placement())
+				skipped(c.r, "topology_cut_short", t.Name, "allocators did not serve again after the move before the join (placement %s)", c.placement())
 				return false
 			}
 			c.note("serving: %s", c.placement())
@@ -677,7 +701,7 @@ func (c *cluster) beforeJoin(rng *rand.Rand, dcs []string) bool {
 		o := q.do(globalDC, 1, modeDirect, -3, -1)
 		_, m := c.serving(globalDC)
 		if o.Err != "" || m == nil {
-			c.r.Inconclusive("%s: no global timestamp before the administrative reset", t.Name)
+			skipped(c.r, "topology_cut_short", t.Name, "no global timestamp before the administrative reset")
 			return false
 		}
 		target := o.Physical + 15000
@@ -809,7 +833,7 @@ func runTopology(r *ev.Run, t topo, rng *rand.Rand, rounds int) {
 	r.Count("clusters_started", 1)
 	dcs := c.dcs(false)
 	if !c.waitServing(dcs, 150*time.Second) {
-		r.Inconclusive("%s: allocators %v + global did not all serve within 150 s (placement %s)", t.Name, dcs, c.placement())
+		skipped(r, "topology_skipped_setup_timeout", t.Name, "allocators %v + global did not all serve within 150 s (placement %s)", dcs, c.placement())
 		c.judgeSuffixOnly() // the suffix clauses do not depend on anybody serving
 		return
 	}
@@ -823,20 +847,19 @@ func runTopology(r *ev.Run, t topo, rng *rand.Rand, rounds int) {
 	for rd := 0; rd < rounds; rd++ {
 		if rd == lateAt {
 			if !c.beforeJoin(rng, dcs) {
-				return
+				break
 			}
 			// the late member joins while a round is running
 			ok := true
 			shapes = append(shapes, c.round(rd, rng, dcs, func() { ok = c.startLate() }))
 			r.Eval(1)
 			if !ok {
-				return
+				break
 			}
 			dcs = c.dcs(true)
 			if !c.waitServing(dcs, 150*time.Second) {
-				r.Inconclusive("%s: after the late member joined, allocators %v + global did not all serve within 150 s (placement %s)", t.Name, dcs, c.placement())
-				c.judgeSuffixOnly()
-				return
+				skipped(r, "topology_cut_short", t.Name, "after the late member joined, allocators %v + global did not all serve within 150 s (placement %s)", dcs, c.placement())
+				break
 			}
 			c.note("serving: %s", c.placement())
 			r.Count("late_joins", 1)
@@ -867,7 +890,7 @@ func runTopology(r *ev.Run, t topo, rng *rand.Rand, rounds int) {
 		r.Distinct(fmt.Sprintf("%s|%d|%s", t.Name, i, s))
 	}
 	if !c.settleWatch() {
-		r.Inconclusive("%s: the suffix watch did not catch up with etcd", t.Name)
+		skipped(r, "topology_skipped_watch_timeout", t.Name, "the suffix watch did not catch up with etcd; history not judged")
 		return
 	}
 	c.scrapeMetrics()
@@ -913,6 +936,14 @@ func main() {
 	suffixAddon(r, rng, r.Pick(40, 80))
 	r.Floor(int64(r.Pick(30, 100)))
 	r.Finish()
+}
+
+// skipped records that a topology could not be set up (or continued) within its budget. That is a
+// limit of the machine or of pd's liveness, not of the property: the topology is counted and the
+// run goes on; the evaluation floor decides whether enough was observed overall.
+func skipped(r *ev.Run, counter, name, format string, a ...interface{}) {
+	r.Count(counter, 1)
+	r.Set("skipped_"+name, fmt.Sprintf(format, a...))
 }
 
 func (c *cluster) notesCopy() []string {
